@@ -24,6 +24,10 @@ type RunDef struct {
 	// Sweep: run once per value of each listed parameter (cartesian).
 	Sweep map[string][]int64 `json:"sweep,omitempty"`
 	Cross int                `json:"cross,omitempty"`
+	// NoReplay: the harness runs against the engine's in-memory OS model, so a
+	// native run would exercise the real file system instead; counterexamples
+	// are reported from the engine's model without native confirmation.
+	NoReplay bool `json:"noreplay,omitempty"`
 }
 
 type CheckDef struct {
@@ -250,7 +254,19 @@ func cmdCheck(args []string) int {
 			broken = fmt.Sprintf("vacuity: harness %s %v never reached its end marker", rd.Fn, rd.Params)
 		}
 		// native confirmation of counterexamples
-		if len(res.Cexs) > 0 {
+		if len(res.Cexs) > 0 && rd.NoReplay {
+			for k, c := range res.Cexs {
+				if k >= 25 {
+					break
+				}
+				os.MkdirAll(replayDir, 0o755)
+				path := filepath.Join(replayDir, fmt.Sprintf("%s-%d.json", rd.Fn, len(confirmed)))
+				data, _ := json.MarshalIndent(map[string]any{"pkg": rd.Pkg, "case": NativeCase{Harness: c.Harness, Inputs: c.Inputs, Params: c.Params}, "engine_msg": c.Msg, "inputs_readable": fmtInputs(c.Inputs), "note": "counterexample in the engine's OS model; replay with: symgo run -pkg " + rd.Pkg + " -fn " + rd.Fn}, "", " ")
+				os.WriteFile(path, data, 0o644)
+				confirmed = append(confirmed, path)
+				fmt.Printf("    counterexample in the OS model: %s inputs=%s\n", c.Msg, fmtInputs(c.Inputs))
+			}
+		} else if len(res.Cexs) > 0 {
 			cexs := res.Cexs
 			if len(cexs) > 25 {
 				cexs = cexs[:25]
@@ -282,7 +298,7 @@ func cmdCheck(args []string) int {
 			}
 		}
 		// translator validation on a sample of passing paths
-		if !*noReplay && len(res.Samples) > 0 {
+		if !*noReplay && !rd.NoReplay && len(res.Samples) > 0 {
 			smp := res.Samples
 			rng.Shuffle(len(smp), func(a, b int) { smp[a], smp[b] = smp[b], smp[a] })
 			if len(smp) > 12 {
